@@ -1,5 +1,6 @@
 import Driver.Codec
 import Driver.Sched
+import Driver.Machines
 /-
   Line protocol: one JSON request per line on stdin, one JSON reply per line on stdout.
 -/
@@ -44,6 +45,13 @@ def handle (line : String) : Json :=
         | "pipe" => handlePipe j
         | "stp" => LazyDs.SchedDriver.handleStp j
         | "lpm" => LazyDs.SchedDriver.handleLpm j
+        | "bucket" => LazyDs.MachDriver.handleBucket j
+        | "cache" => LazyDs.MachDriver.handleCache j
+        | "disk" => LazyDs.MachDriver.handleDisk j
+        | "reshuffle" => LazyDs.MachDriver.handleReshuffle j
+        | "local" => LazyDs.MachDriver.handleLocal j
+        | "db" => LazyDs.MachDriver.handleDb j
+        | "groupby" => LazyDs.MachDriver.handleGroupBy j
         | _ => .error s!"unknown family {fam}"
       match r with
       | .ok v => v
